@@ -92,7 +92,7 @@ func TestCheck(t *testing.T) {
 	defer run.Finish()
 	run.Rule("case = one generated schema (0-4 reflect.StructOf objects with scalar/pointer/slice/enum/union/text-marshaler/object fields and key tags, a pool of predeclared named objects, unions, enums (one of them with alias names: two names for one value), named scalars, text marshalers, keyed and recursive objects; 4-9 root field funcs and 0-5 per object minted by reflect.MakeFunc over every signature form ctx?/source(value|pointer)?/args?/selectionSet? -> result?/error?, options NonNullable, ListEntryNonNullable, Expensive, NumParallelInvocationsFunc, Paginated, BatchFieldFunc, BatchFieldFuncWithFallback; StructOf arg structs incl. named input objects, enums, lists, optional/pointer args) " +
 		"x N queries generated from the advertised graph (depth<=4, aliases, merged duplicates, inline and shared named fragments, union member subsets, __typename at any level, args from advertised arg types, query and mutation roots, fragments on the union type itself, the same composite field under two aliases with equal arguments and different sub-selections - every second time for Expensive fields); every query with such a pair and every fourth other accepted query is executed a second time inside a reactive.Rerunner with batch.WithBatching (as the HTTP handler does; only there the reactive result cache of Expensive fields is used) and checked by the same conformance oracle; each query is evaluated undamaged and with exactly one damage out of {unknown field, sub-selection on scalar/enum/__typename, missing sub-selection on object/union, unknown field inside an applicable fragment (incl. inside `... on U` under a U-typed field), each of these four also (2 in 5) with @skip/@include on the damaged node or on an inline fragment / named spread wrapped around it - excluding and including, literal, variable and defaulted-variable conditions: validation must reject whatever the directive says, one named fragment spread at two places whose second object type gives the same field name another kind or object type (thunder applies a fragment to any object it is spread in; both visiting orders), one well-formed named fragment spread at two places of one type with an ordinary damage next to one spread}. " +
-		"Resolver results are legal Go values of the declared types (valid enum members, one-hot unions, nil pointers only under nullable types, nil/empty slices, nil entries in pointer lists, missing batch entries only without NonNullable). " +
+		"Every third accepted query runs once more with one resolver invocation in eight failing with context.Canceled / context.DeadlineExceeded (bare, wrapped, from an own cancelled sub-context; request context alive) or an ordinary error: the query must fail or the response must conform. Result types also include less common slice shapes (named []byte, slices of named uint8 with value/pointer-receiver MarshalText or none, json.RawMessage, named slices with MarshalText / MarshalJSON). Resolver results are legal Go values of the declared types (valid enum members, one-hot unions, nil pointers only under nullable types, nil/empty slices, nil entries in pointer lists, missing batch entries only without NonNullable). " +
 		"Non-trivial = the advertised schema has >= 3 of {union, enum, list of objects, nullable object, batch/expensive field, args}; distinct = hash(schema shape, query text, damage).")
 	run.Assume("the reserved \"__key\" marker the executor adds to keyed objects (consumed by package diff) is not counted as a selected field")
 	run.Assume("argument literals for advertised scalars: Time as RFC 3339 string, bytes as base64 string, unsigned ints as non-negative; pagination arguments other than a small `first` are not passed (their values carry cursor/sort semantics)")
@@ -523,6 +523,10 @@ func evalValid(run *vlib.Run, l *local, i, qi int, s *schemaInst, adv *advSchema
 		l.add("conforming_responses", 1)
 	}
 
+	if usedDoc == doc && qi%3 == 1 {
+		errorLeg(run, l, i, qi, s, adv, root, rootName, doc, text)
+	}
+
 	// second leg: the same query inside a reactive.Rerunner (every query that
 	// selects one field under two aliases, and a share of the others)
 	if usedDoc != doc || !(qf["same_field_two_aliases"] || qi%4 == 0) {
@@ -579,6 +583,64 @@ func evalValid(run *vlib.Run, l *local, i, qi int, s *schemaInst, adv *advSchema
 		l.add("rerunner_leg_conforming", 1)
 	}
 	return true
+}
+
+// errorLeg executes the query again while one resolver invocation in eight
+// (of the field funcs that can return an error) fails with context.Canceled,
+// context.DeadlineExceeded (bare or wrapped; the request context stays alive)
+// or an ordinary error. Either the query fails, or the response conforms to
+// the advertised types (null only where nullable).
+func errorLeg(run *vlib.Run, l *local, i, qi int, s *schemaInst, adv *advSchema, root graphql.Type, rootName string, doc *qDoc, text string) {
+	kind := 1 + (i+qi)%len(injectedErrors)
+	name := injectedErrors[kind-1].name
+	q, _, err := prepare(root, text, nil)
+	if err != nil {
+		run.Broken(fmt.Sprintf("case %d query %d: accepted query rejected when prepared again: %v", i, qi, err))
+		return
+	}
+	s.errKind.Store(int32(kind))
+	val, st, xerr := execute(s, root, q)
+	s.errKind.Store(0)
+	if st.errInjected.Load() == 0 {
+		l.add("error_leg:no_failing_resolver_reached", 1)
+		return
+	}
+	l.add("error_leg:"+name, 1)
+	w := func(extra map[string]interface{}) map[string]interface{} {
+		extra["failed_resolvers"] = st.failed
+		extra["leg"] = fmt.Sprintf("%d resolver invocation(s) returned %q while the request context was alive", st.errInjected.Load(), name)
+		return witness(i, qi, s, text, extra)
+	}
+	if len(st.panics) > 0 {
+		run.Violation(i, "", w(map[string]interface{}{"what": "executor panicked when a resolver returned an error", "panic": st.panics[0]}))
+		return
+	}
+	if xerr != nil {
+		l.add("error_leg_query_failed", 1)
+		return
+	}
+	l.add("error_leg_query_succeeded", 1)
+	b, err := json.Marshal(val)
+	if err != nil {
+		run.Violation(i, "", w(map[string]interface{}{"what": "response is not JSON-serialisable", "err": err.Error()}))
+		return
+	}
+	var resp interface{}
+	if err := json.Unmarshal(b, &resp); err != nil {
+		run.Violation(i, "", w(map[string]interface{}{"what": "response JSON does not re-parse", "err": err.Error()}))
+		return
+	}
+	chk := &checker{a: adv, doc: doc, s: s, counts: map[string]int{}}
+	chk.object(resp, rootName, []*qSelSet{doc.Root}, "$")
+	if len(chk.mism) > 0 {
+		ms := chk.mism
+		if len(ms) > 8 {
+			ms = ms[:8]
+		}
+		l.add("error_leg_nonconforming:"+ms[0].Kind, 1)
+		run.Violation(i, "", w(map[string]interface{}{
+			"what": "a resolver failed, Execute reported success, and the response does not conform to the advertised types", "mismatches": ms, "response": vlib.Trunc(string(b), 2500)}))
+	}
 }
 
 func evalDamaged(run *vlib.Run, l *local, i, qi int, s *schemaInst, adv *advSchema, built *graphql.Schema, doc *qDoc, dmg *damage, dtext, text string) {
